@@ -203,7 +203,7 @@ impl Check for C07 {
     }
 
     fn cases(&self, tier: Tier) -> u64 {
-        tier.pick(40_000, 1_000_000)
+        tier.pick(120_000, 1_000_000)
     }
 
     fn max_shrink_iters(&self) -> u32 {
